@@ -17,6 +17,10 @@ FIXED = [
     "bind tcp4 / bindsame 0 [::1] / unbindalias 0 127.0.0.2 / unbind 0 / unbind 0 / binds / probe 0 / probe 1 / conn 1 / xchg 0",
     "bind tcp6 / unbindalias 0 127.0.0.1 / binds / probe 0 / conn 0 / xchg 0",
     "bind tcp4 / bind tcp4 / unbindalias 0 127.0.0.2 / unbindalias 1 127.0.0.2 / unbindx / binds / probe 0 / probe 1",
+    # a client that never finishes its handshake does not stop the endpoint from accepting others, nor unbind from returning
+    "bind tcp4 / staller 0 off=0 mode=stop / conn 0 / xchg 1 / staller 0 off=70 mode=stop / conn 0 / xchg 3 / unbind 0 / binds / probe 0",
+    "bind ipc / staller 0 off=0 mode=stop / conn 0 / xchg 1 / unbind 0 / binds / probe 0",
+    "bind tcp4 / bind tcp6 / staller 0 off=10 mode=stop / staller 1 off=64 mode=stop / conn 0 / conn 1 / unbind 0 / xchg 3 / binds / probe 0 / probe 1",
 ]
 
 
@@ -110,7 +114,7 @@ def replay(line, obs):
         elif op[0] in ("unbindx", "unbindalias"):
             mops.append("ux")
             i += 1
-        elif op[0] in ("conn", "xchg", "binds", "probe"):
+        elif op[0] in ("conn", "xchg", "binds", "probe", "staller"):
             i += 1
     return mops
 
@@ -158,6 +162,8 @@ def judge(line, obs, orc):
                 return "unbind result %s, bind-table model says %s" % (tk, want)
             if op[0] == "unbind" and got == "unbound":
                 cur.discard(int(op[1]))
+        elif op[0] == "staller":
+            nc += 1
         elif op[0] == "conn":
             b = int(op[1])
             conn_bind[nc] = b
